@@ -150,6 +150,9 @@ def validate_trace(module, trace, wd, pid, tag, max_rej=12):
             # domain of an operator, a missing field): such an event is not a behaviour of the
             # specification.  The run it belongs to is rejected at the line TLC had reached.
             ls = re.findall(r"^/\\ l = (\d+)", out, re.M)
+            if re.search(r"Java heap space|OutOfMemoryError|StackOverflowError|GC overhead", out):
+                # resource exhaustion of the checker says nothing about the code
+                raise ToolError(f"TLC ran out of memory on {part} ({tag}):\n" + out[-3000:])
             if ls and ("The error occurred when TLC was evaluating" in out or "unexpected exception" in out
                        or "Error: Attempted to" in out or "Error: The" in out):
                 evalerr = int(ls[-1])
